@@ -23,9 +23,9 @@ func init() {
 		Level: "fault_enumeration",
 		Rule: "seeded accepted-block notification histories (<=12 deliveries: consecutive heights, height gaps as after a second state sync, re-delivery of the last 1..3 blocks as after a node restart, indexer restarts) with 0..2 transactions per block and block windows 1..4, on the real Indexer over real pebble on an in-memory file system; for every history the durable writes W are counted and the history is re-run crashing before write k for every k (exhaustive for that history), restarting and re-delivering; at every quiescent point every query (by height, by id, latest, by transaction) is compared with a window model, before and after an extra restart; " +
 			"non-trivial = the history has a gap, a re-delivery or a restart; distinct = distinct (history, crash point) hashes",
-		Exec: c31,
-		Real: []string{"api/indexer.Indexer (Notify, initBlocks, lookups)", "internal/pebble wrapper + cockroachdb/pebble on vfs.MemFS", "chain.ExecutedBlock encoding"},
-		Stub: []string{"file system (pebble vfs.NewMem via the verif FS hook; all writes of the wrapper are pebble.Sync so a crash keeps exactly the completed writes)", "block producer (synthetic executed blocks)"},
+		Exec:        c31,
+		Real:        []string{"api/indexer.Indexer (Notify, initBlocks, lookups)", "internal/pebble wrapper + cockroachdb/pebble on vfs.MemFS", "chain.ExecutedBlock encoding"},
+		Stub:        []string{"file system (pebble vfs.NewMem via the verif FS hook; all writes of the wrapper are pebble.Sync so a crash keeps exactly the completed writes)", "block producer (synthetic executed blocks)"},
 		Assumptions: []string{"answers are compared at quiescent points (after a delivery whose height is the highest so far); during a re-delivery of older blocks the latest pointer is allowed to lag"},
 	})
 }
@@ -260,7 +260,7 @@ func c31(r *simk.Run) *simk.Violation {
 	}
 	interesting := false
 	var delivered []c31Deliver
-	for len(ops) < nOps {
+	for tries := 0; len(ops) < nOps && tries < 300; tries++ {
 		switch c.Weighted(8, 1, 2, 2) {
 		case 0:
 			d := c31Deliver{Height: next, Txs: c.Intn(3)}
